@@ -75,6 +75,122 @@ theorem disconnect_logout_eval (env : Env) (d : Nat) (text : String) (c : Conn)
   rcases sendMsg env (logoutMsg text) _ with ⟨r, c1, e1⟩
   cases r with
   | error ex => rfl
-  | ok u => cases hs : c1.sock <;> simp [hs]
+  | ok u => cases hs : c1.sock <;> simp [bind, M.bind', hs]
+
+/-! ### `on_disconnect` calls = reported transitions into a disconnected state -/
+
+def notConn : Effect → Bool
+  | .onConnect => false
+  | _ => true
+
+/-- post-state = tracked state, as many `onDisconnect` as transitions connected → disconnected, and no
+`onConnect` (only transport set-up emits that) -/
+def RAB (c c' : Conn) (e : List Effect) : Prop :=
+  c'.state = track c.state e ∧ nDisc e = nTrans c.state e ∧ e.all notConn = true
+
+instance : Compositional RAB where
+  refl := fun c => ⟨rfl, rfl, rfl⟩
+  trans := by
+    intro c c1 c2 e1 e2 h1 h2
+    refine ⟨?_, ?_, ?_⟩
+    · rw [track_append, ← h1.1, h2.1]
+    · rw [nDisc_append, nTrans_append, ← h1.1, h1.2.1, h2.2.1]
+    · rw [List.all_append, h1.2.2, h2.2.2]; rfl
+
+theorem plain_notConn {e : List Effect} (h : e.all plainUp = true) : e.all notConn = true := by
+  induction e with
+  | nil => rfl
+  | cons x xs ih =>
+    simp only [List.all_cons, Bool.and_eq_true] at h ⊢
+    exact ⟨by cases x <;> simp_all [plainUp, notConn], ih h.2⟩
+
+theorem RPlain.toAB {α : Type} {x : M α} (h : M.Rel RPlain x) : M.Rel RAB x :=
+  ⟨fun c => ⟨(h.out c).1, by rw [plain_nDisc (h.out c).2, plain_nTrans (h.out c).2],
+    plain_notConn (h.out c).2⟩⟩
+
+theorem RAB.modify {f : Conn → Conn} (h : ∀ c, (f c).state = c.state) :
+    M.Rel RAB (M.modify f) := ⟨fun c => ⟨h c, rfl, rfl⟩⟩
+
+/-- emitting an effect other than `onState` / `onDisconnect` / `onConnect` -/
+theorem RAB.emit {e : Effect} (h : ∀ s, track s [e] = s := by intro s; rfl)
+    (h1 : nDisc [e] = 0 := by rfl) (h2 : ∀ s, nTrans s [e] = 0 := by intro s; rfl)
+    (h3 : notConn e = true := by rfl) :
+    M.Rel RAB (M.emit e) :=
+  ⟨fun c => ⟨(h c.state).symm, by show nDisc [e] = nTrans c.state [e]; rw [h1, h2],
+    by show [e].all notConn = true; simp [h3]⟩⟩
+
+theorem discTail_AB (c1 : Conn) (d : Nat) (h1 : isDisc c1.state = false) (hd : isDisc d = true) :
+    RAB c1 (discTail c1 d).1 (discTail c1 d).2 := by
+  cases hs : c1.sock <;> simp [discTail, RAB, track, nDisc, nTrans, hs, h1, hd, notConn]
+
+theorem disconnect_AB (env : Env) (d : Nat) (lo : Option String) : M.Rel RAB (disconnect env d lo) := by
+  constructor
+  intro c
+  cases h : isDisc c.state with
+  | true => rw [disconnect_of_disc env d lo c h]; exact Compositional.refl c
+  | false =>
+    cases hd : isDisc d with
+    | false => rw [disconnect_bad_target env d lo c h hd]; exact Compositional.refl c
+    | true =>
+      cases lo with
+      | none =>
+        rw [disconnect_plain_eval env d c h hd]
+        exact discTail_AB (discReset c) d h hd
+      | some text =>
+        rw [disconnect_logout_eval env d text c h hd]
+        have hp := (sendMsg_plain env (logoutMsg text)).out (discReset c)
+        have hab := (RPlain.toAB (sendMsg_plain env (logoutMsg text))).out (discReset c)
+        rcases hsend : sendMsg env (logoutMsg text) (discReset c) with ⟨r, c1, e1⟩
+        rw [hsend] at hp hab
+        cases r with
+        | error ex => exact hab
+        | ok u =>
+          have hup : isDisc c1.state = false := by
+            have := plain_track_up hp.2 (s := (discReset c).state) h
+            rw [← hp.1] at this; exact this
+          exact Compositional.trans (c := c) (c1 := c1) hab (discTail_AB c1 d hup hd)
+
+attribute [local irreducible] M.bind' M.pure' M.throw M.tryCatch M.get M.modify M.emit M.liftE
+  M.assert M.int
+
+theorem stateSet_AB {s : Nat} (h : isDisc s = false) : M.Rel RAB (stateSet s) :=
+  RPlain.toAB (stateSet_plain h)
+
+theorem processLogon_AB (env : Env) (m : Msg) : M.Rel RAB (processLogon env m) := by
+  unfold processLogon
+  rel_tac [RAB.modify, RAB.emit, disconnect_AB, stateSet_AB, RPlain.toAB (sendMsg_plain _ _)]
+
+theorem processLogout_AB (env : Env) (m : Msg) : M.Rel RAB (processLogout env m) := by
+  unfold processLogout
+  rel_tac [RAB.modify, RAB.emit, disconnect_AB]
+
+theorem processHeartbeat_AB (env : Env) (m : Msg) : M.Rel RAB (processHeartbeat env m) := by
+  unfold processHeartbeat
+  rel_tac [RAB.modify, RAB.emit, disconnect_AB]
+
+theorem processHead_AB (env : Env) (m : Msg) : M.Rel RAB (processHead env m) := by
+  unfold processHead
+  rel_tac [RAB.modify, RAB.emit, disconnect_AB, stateSet_AB, processLogon_AB, processLogout_AB,
+    RPlain.toAB (processSeqreset_plain _), RPlain.toAB (checkSeqnumGaps_plain _ _)]
+
+theorem processDispatch_AB (env : Env) (sr : Msg → Bool) (m : Msg) (v : Bool) (n : Int) :
+    M.Rel RAB (processDispatch env sr m v n) := by
+  unfold processDispatch
+  rel_tac [RAB.modify, RAB.emit, processHeartbeat_AB, RPlain.toAB (processResend_plain _ _ _),
+    RPlain.toAB (processTestRequest_plain _ _)]
+
+theorem swallow_AB {α : Type} (d : α) {x : M α} (h : M.Rel RAB x) : M.Rel RAB (swallow d x) := by
+  unfold swallow
+  rel_tac [RAB.emit, h]
+
+theorem processMessage_AB (env : Env) (sr : Msg → Bool) (m : Msg) :
+    M.Rel RAB (processMessage env sr m) := by
+  unfold processMessage
+  rel_tac [RAB.emit, disconnect_AB, swallow_AB, processHead_AB, processDispatch_AB,
+    RPlain.toAB (validateIntegrity_plain _), RPlain.toAB (finalizeMessage_plain _ _)]
+
+theorem tickBody_AB (env : Env) : M.Rel RAB (tickBody env) := by
+  unfold tickBody
+  rel_tac [RAB.modify, RAB.emit, disconnect_AB, RPlain.toAB (sendTestReq_plain _)]
 
 end AsyncFix.Session
